@@ -1008,6 +1008,70 @@ def oracle_check(regs, unregister=(), seed=0):
     return bad
 
 
+def gen_auth_registrations(rng, n):
+    regs = []
+    for i in range(n):
+        filters, seen = [], []
+        for _ in range(rng.choice([0, 1, 1, 1, 2, 3])):
+            c = rng.choice(ORACLE_CRIT)
+            if c not in seen:
+                seen.append(c)
+                filters.append([rng.choice(["apply_to", "apply_to", "skip_for"]), c])
+        regs.append({"id": i, "storage": rng.choice(["global", "schema", "schema", "test"]), "form": rng.choice(["register", "register", "requests"]), "filters": filters})
+    return regs
+
+
+def auth_oracle_check(regs):
+    """Register providers through the public API; for every operation the credentials must be those of the first provider of
+    the storage in charge (test, else schema if it has providers, else global) whose own filters select the operation."""
+    import requests.auth
+
+    env = AuthEnv()
+    bad = []
+    try:
+        A = env.A
+        test = env.tests[0]
+        in_storage = {"global": [], "schema": [], "test": []}
+        for r in regs:
+            def chain(t, fs):
+                for k, c in fs:
+                    t = getattr(t, k)(**{a: (list(v) if isinstance(v, list) else v) for a, v in c.items()})
+                return t
+
+            if r["storage"] == "test":
+                if in_storage["test"]:
+                    continue  # one apply per test
+                chain(env.schema.auth.apply(make_provider_cls(r["id"])), r["filters"])(test)
+            else:
+                storage = A.GLOBAL_AUTH_STORAGE if r["storage"] == "global" else env.schema.auth
+                if r["form"] == "register":
+                    chain(storage.register(), r["filters"])(make_provider_cls(r["id"]))
+                else:
+                    auth = requests.auth.HTTPBasicAuth("u", "p")
+                    auth.cid = r["id"]
+                    chain(storage.set_from_requests(auth), r["filters"])
+            in_storage[r["storage"]].append(r)
+        for with_test in (False, True):
+            if with_test and not in_storage["test"]:
+                continue
+            chargeable = in_storage["test"] if with_test else (in_storage["schema"] or in_storage["global"])
+            for o, f in zip(env.operations, FACTS):
+                expected = next((r["id"] for r in chargeable if expected_selected(r, f)), None)
+                case = o.Case()
+                A.set_on_case(case, A.AuthContext(operation=o, app=None), A.AuthStorageMark.get(test) if with_test else None)
+                if getattr(case, "_auth", None) is not None:
+                    actual = case._auth.cid
+                elif case.headers and "Authorization" in case.headers:
+                    actual = int(case.headers["Authorization"].split("-")[1])
+                else:
+                    actual = None
+                if actual != expected:
+                    bad.append((f["label"], with_test, expected, actual))
+    finally:
+        env.close()
+    return bad
+
+
 # ----------------------------------------------------------------------------------------
 # listed findings: canonical witnesses replayed on the implementation
 # ----------------------------------------------------------------------------------------
@@ -1200,6 +1264,25 @@ def run(chk: core.Check):
             chk.sample({"oracle_registrations": regs[:3], "wrong": len(bad)})
     chk.stages["oracle_generation"] = {"runs": n_or, "hooks_firing_on_wrong_operations": wrong, "inside_listed_regions": inside}
 
+    # ---- oracle: auth providers through the public API
+    n_ao = (150 if quick else 2000) * (10 if chk.broken else 1)
+    a_wrong = 0
+    for _ in range(n_ao):
+        aregs = gen_auth_registrations(rng, rng.choice([1, 2, 3, 4]))
+        try:
+            abad = auth_oracle_check(aregs)
+        except Exception as exc:  # noqa: BLE001
+            chk.fail(f"auth registration crashed: {type(exc).__name__}: {exc}"[:300], {"auth_registrations": aregs})
+            continue
+        chk.seen({"auth_oracle": aregs}, len(aregs) >= 2 and any(r["filters"] for r in aregs))
+        for label, with_test, expected, actual in abad[:1]:
+            a_wrong += 1
+            chk.fail(
+                f"operation {label} ({'test' if with_test else 'schema/global'} storage) authenticated by provider {actual}, own filters select provider {expected}",
+                {"auth_registrations": aregs},
+            )
+    chk.stages["oracle_auth"] = {"runs": n_ao, "wrong_provider": a_wrong}
+
     # ---- listed findings
     for f in chk.findings:
         chk.known(f, witness_fails(f["witness"]))
@@ -1214,6 +1297,12 @@ def replay(payload) -> int:
             for r, exp, act, region in bad:
                 print(f"  registration {r['id']} {r['hook']}: fired for {act}, own filters select {exp} (region {region})")
             print("->", "FAILS" if bad else "passes")
+        if isinstance(inp, dict) and "auth_registrations" in inp:
+            abad = auth_oracle_check(inp["auth_registrations"])
+            print("auth registrations", inp["auth_registrations"])
+            for row in abad:
+                print("  operation %s test-storage=%s: own filters select provider %s, authenticated by %s" % row)
+            print("->", "FAILS" if abad else "passes")
     for b in payload.get("broken_obligations_or_correspondence", []):
         print("broken:", b.get("kind"), b.get("what"))
         inp = b.get("input")
